@@ -12,7 +12,8 @@ def handle (ts : List String) : Option String :=
     match ds with
     | (_, _, root) :: leaves =>
       -- `3p`: the failing fetch also hands back some bytes; to the caller it is the same failure
-      let failIdx : Option Nat := (if fail.endsWith "p" then (fail.dropEnd 1).toString else fail).toNat?
+      -- `3e`: the failing fetch fails with exactly io.EOF and some bytes; the same failure again
+      let failIdx : Option Nat := (if fail.endsWith "p" || fail.endsWith "e" then (fail.dropEnd 1).toString else fail).toNat?
       let live : List (Nat × Nat × List Entry) :=
         match failIdx with
         | some 0 => leaves
